@@ -810,3 +810,6 @@ func (d *Driver) CheckTransition(before, after dht.VerifTableSnapshot, ev Event)
 }
 
 var _ = simnet.Now
+
+// SetQueryDelay changes what the server's QueryResendDelay returns from now on.
+func (d *Driver) SetQueryDelay(x time.Duration) { d.delay.Store(int64(x)) }
